@@ -811,6 +811,22 @@ class Models:
             return seq.retag('str', False)
         if name == 'copy':
             return seq.copy()
+        if name == 'view':
+            dt = np.dtype(args[0])
+            ct = dtype_ctype(dt)
+            if ct.bits != seq.elem.bits or seq.pytype != 'ndarray':
+                raise CannotEncode('ndarray.view changing the item size')
+            return SymSeq(seq.cells, ct, 'ndarray', seq.off, seq.length, seq.writable, seq.name, dt.str)
+        if name == 'astype':
+            dt = np.dtype(args[0])
+            ct = dtype_ctype(dt)
+            if kwargs.get('copy', True) is False and ct == seq.elem:
+                return seq
+            pc = seq.plain_cells()
+            if pc is None:
+                raise CannotEncode('astype of symbolic-extent array')
+            out = [ip.to_ctype(CVal(c, seq.elem), ct).term for c in pc]
+            return SymSeq(out, ct, 'ndarray', dtype=dt.str)
         if name == '__len__':
             return seq.length
         raise CannotEncode(f'sequence method {name}')
